@@ -11,7 +11,7 @@ subprocess.check_call(['rsync', '-a', '--delete', '--exclude', '/target', '--exc
 for inj in unit['inject']:
     rel, hf = inj[0], inj[1]
     with open(os.path.join(d, rel), 'a') as f:
-        f.write('\n#[cfg(kani)] #[path = "%s"] mod %s;\n' % (hf, inj[2] if len(inj) > 2 else 'verif_kani'))
+        f.write('\n#[cfg(kani)] #[path = "%s"] %s mod %s;\n' % (hf, inj[3] if len(inj) > 3 else '', inj[2] if len(inj) > 2 else 'verif_kani'))
 import re
 for rel, pat, rep, mn in unit.get('rewrite', []):
     q = os.path.join(d, rel); t = open(q).read(); open(q, 'w').write(re.sub(pat, rep, t))
